@@ -8,6 +8,8 @@ open BExpr
 inductive FAction where
   /-- `fields_count += 1; try: values[name] = method(data[alias]) except ValidationError: if <guard>: record the error` -/
   | deserialize (errGuard : BExpr)
+  /-- the same without storing the value (`SimpleObjectMethod`: the constructor receives the data itself) -/
+  | check (errGuard : BExpr)
   /-- `set_child_error(alias, missing)` -/
   | missing
   /-- `set_child_error(alias, missing (required by sorted(required_by & data.keys())))` -/
@@ -29,6 +31,14 @@ def runAction (f : FieldInfo) (fbod : Bool) (r : Option (Outcome Val)) (reqBy : 
           if evalT (loopTbl f fbod true reqBy) g then { rest with errs := setChild (.name f.alias) e rest.errs, count := rest.count + 1 }
           else { rest with count := rest.count + 1 }
       | Option.none => { crash := some "KeyError" }        -- `data[field.alias]` on an absent key
+  | .check g =>
+      match r with
+      | some (.crash c) => { crash := some c }
+      | some (.ok _) => { rest with count := rest.count + 1 }
+      | some (.invalid e) =>
+          if evalT (loopTbl f fbod true reqBy) g then { rest with errs := setChild (.name f.alias) e rest.errs, count := rest.count + 1 }
+          else { rest with count := rest.count + 1 }
+      | Option.none => { crash := some "KeyError" }
   | .missing => { rest with errs := setChild (.name f.alias) (.leaf .missing) rest.errs }
   | .missingRequiredBy => { rest with errs := setChild (.name f.alias) (.leaf (.missingRequiredBy reqBy)) rest.errs }
   | .unknown _ => { crash := some "unknown source action" }
@@ -42,6 +52,6 @@ def stepFieldSrc (chain : List (BExpr × FAction)) (f : FieldInfo) (fbod : Bool)
       else stepFieldSrc more f fbod r reqBy rest
 
 def chainCovered (chain : List (BExpr × FAction)) (tbl : List (String × Bool)) : Bool :=
-  chain.all (fun ga => covered tbl ga.1 && (match ga.2 with | .deserialize g => covered tbl g | .unknown _ => false | _ => true))
+  chain.all (fun ga => covered tbl ga.1 && (match ga.2 with | .deserialize g => covered tbl g | .check g => covered tbl g | .unknown _ => false | _ => true))
 
 end Api
